@@ -10,7 +10,46 @@ from harness import core
 from harness.core import Outcome
 
 ID = "C20"
-LEAN_TARGETS = ["BeyondVerif.Props.C20", "BeyondVerif.Props.C20Forest", "BeyondVerif.Props.C20Registry", "BeyondVerif.Props.C20Named", "BeyondVerif.Witness.C20"]
+
+
+class _Timeout(BaseException):
+    pass
+
+
+def _on_alarm(sig, frame):
+    raise _Timeout()
+
+
+def guarded(fn, *args, limit=3.0):
+    """run fn(*args) under a CPU-time bound (SIGVTALRM, so that the wall-clock timer of a forked child stays armed): a changed
+    library may loop or raise inside `a + b` itself. returns (status, value) with status ok / timeout / memory / exc"""
+    import signal
+    old = signal.signal(signal.SIGVTALRM, _on_alarm)
+    signal.setitimer(signal.ITIMER_VIRTUAL, limit)
+    try:
+        return "ok", fn(*args)
+    except _Timeout:
+        return "timeout", None
+    except MemoryError:
+        return "memory", None
+    except Exception as e:  # noqa: BLE001
+        return "exc", f"{type(e).__name__}: {e}"[:200]
+    finally:
+        signal.setitimer(signal.ITIMER_VIRTUAL, 0)
+        signal.signal(signal.SIGVTALRM, old)
+
+
+def guarded_check(out, inp, fn, *args):
+    """an oracle evaluation whose registrations (`+`) themselves may loop or raise: that is a failing input, not a harness error"""
+    st, v = guarded(fn, out, *args)
+    if st == "ok":
+        return v
+    if st == "exc":
+        out.fail("node-link-raises:" + v.split(":")[0], "linking two nodes (Node.__add__) raises", inp, observed=v)
+    else:
+        out.fail("node-link-does-not-terminate", f"linking two nodes (Node.__add__) or walking their tables exceeds the {st} bound", inp, observed=st)
+    return None
+LEAN_TARGETS = ["BeyondVerif.Props.C20", "BeyondVerif.Props.C20Forest", "BeyondVerif.Props.C20Registry", "BeyondVerif.Props.C20Named", "BeyondVerif.Props.C20LinkKey", "BeyondVerif.Witness.C20"]
 THEOREMS = [
     "BeyondVerif.C20.path_valid_chain",
     "BeyondVerif.C20.nbrs_iff_linked",
@@ -38,6 +77,11 @@ THEOREMS = [
     "BeyondVerif.C20.sites_register_root",
     "BeyondVerif.C20.builtin_links_have_methods",
     "BeyondVerif.C20.small_named_forests_exact",
+    "BeyondVerif.C20.linkKey_injective",
+    "BeyondVerif.C20.key_sites_plain",
+    "BeyondVerif.C20.collision_infix",
+    "BeyondVerif.C20.collision_suffix",
+    "BeyondVerif.C20.normKey_collision",
     "BeyondVerif.C20W.pentagon_not_shortest",
     "BeyondVerif.C20W.topo_ctor_instance_only_regression",
     "BeyondVerif.C20W.subclass_registration_unresolvable",
@@ -56,7 +100,9 @@ LEVEL_TEXT = ("Lean theorems over the routing model: for every insertion history
               "the base class, every link stays registered (registered_run) and convert_to never raises 'Unknown transformation' on a connected pair, from any start "
               "object that is an instance of the base class (convert_resolves, convert_never_unknown_transformation); the registration sites of the current source, "
               "regenerated from the AST each run, satisfy that hypothesis (sites_register_root, decide) and every built-in link has a class-body method "
-              "(builtin_links_have_methods, decide); registrations under new names change no lookup between old names (fresh_names_keep_methods); all forests on <=3 "
+              "(builtin_links_have_methods, decide); every registration site and both convert_to form the attribute name as f'{a}_to_{b}' without normalisation (key_sites_plain, "
+              "decide on the regenerated shapes) and that name determines the pair of names iff no first name contains '_to_' or ends with '_to' (linkKey_injective; collision_infix, "
+              "collision_suffix, normKey_collision are the kernel-checked collisions outside); registrations under new names change no lookup between old names (fresh_names_keep_methods); all forests on <=3 "
               "nodes under every assignment of (shared) names route to a nearest node of the name (small_named_forests_exact, kernel decide). "
               "Exact differential correspondence of both models with the real Node / Orientation / Center classes on exhaustive/random histories.")
 LEVEL_NOTE = ("shortest-chain clause for cyclic graphs is false of the code (known finding, pinned); the bare TopocentricOrientation constructor registers on the base "
@@ -75,12 +121,15 @@ TRUSTED = [
     "correspondence real-registry: in a forked child every Node.__add__ (patched) and every stored '<a>_to_<b>' attribute (class / instance dict comparison before and after each "
     "public-API registration: solarsystem, jpl with tests/data/jpl, lagrange, stations below any frame, orbit frames, re-registrations) is recorded and replayed in the compiled registry "
     "model; neighbour sets, routing tables and, for every start object and goal name, the chain of resolved link methods of the live Earth / ITRF graphs are compared exactly",
+    "harness/props/C20.py guarded / forked: every real Node.__add__ and table walk of the harness runs in a forked child (wall clock, RLIMIT_AS) under a per-history CPU bound; "
+    "a raising or non-terminating link is reported as a failing input",
     "harness/c20_registry.py: bounded walk of Node.routes (n+2 steps) used to decide that a real path()/convert_to call terminates before making it",
 ]
 ASSUMPTIONS = [
     "the models Model/Node.lean and Model/Registry.lean are hand-written; they are tied to beyond/utils/node.py, beyond/frames/center.py, orient.py by the exact correspondence runs "
     "and (registration sites, built-in links and class-body methods) by tables regenerated from the source",
-    "method keys are modelled as pairs of names: node names do not contain the substring '_to_' (the code concatenates f'{a}_to_{b}')",
+    "method keys are modelled as pairs of names; the code keys by the string f'{a}_to_{b}' (shape regenerated from the AST: key_sites_plain), which determines the pair exactly when no "
+    "first name contains '_to_' or ends with '_to' (linkKey_injective; collisions outside are witnessed and are the open finding C20-link-name-collision)",
     "a Center and its Node are one object of the model (Center.__init__ creates exactly one Node under the same name); single inheritance below Orientation / Center (MRO = chain)",
     "no conversion runs in the middle of a registration site (a site's link and setattr are observed together)",
 ]
@@ -91,6 +140,8 @@ OPEN = [
     "regenerated decide-theorem builtin_links_have_methods, the two are not composed into one statement inside Lean",
 ]
 NOT_COVERED = ["'a shortest chain in general' is false of the current code (known finding C20-cyclic-nonshortest)",
+               "names containing '_to_' or ending with '_to': two different pairs of names share one link method (known finding C20-link-name-collision); the registry model and "
+               "convert_resolves speak about names outside that set",
                "which of several live nodes of ONE name a conversion designates: the code routes to the nearest node of the name and the newest registration of a key shadows the older one; "
                "numerical results of conversions that pass through such a name (analytical and JPL 'Sun' both alive; a frame hanging behind a station that was re-created under its name) "
                "are not claimed - the property speaks of registrations under new names"]
@@ -167,6 +218,10 @@ def extract(ctx):
     ctx.orient_builtin = (list(onames), [list(e) for e in ctx.graphs["orient"][1]], [list(e) for e in meth])
     if core.write_if_changed(os.path.join(core.LEAN, "BeyondVerif", "Generated", "RegSites.lean"), c20_sites.to_lean(sites, meth)):
         changed.append("Generated/RegSites.lean")
+    # how the attribute names are formed at the registration sites and in the two convert_to
+    if core.write_if_changed(os.path.join(core.LEAN, "BeyondVerif", "Generated", "LinkKeys.lean"),
+                             c20_sites.keys_to_lean(c20_sites.extract_shapes(core.REPO), c20_sites.extract_lookups(core.REPO))):
+        changed.append("Generated/LinkKeys.lean")
     return changed
 
 
@@ -297,19 +352,21 @@ def correspondence(ctx):
         cases.append((len(names), hist, "builtin-" + name))
     lines = [line(n, h) for n, h, _ in cases]
     model = core.Driver().run(lines)
-    for (n, h, kind), m in zip(cases, model):
-        real = real_dump(n, real_build(n, h))
+    from harness import c20_registry as R
+    side, why = R.forked(_corr_real_side, [(n, h) for n, h, _ in cases], getattr(ctx, "graphs", {}), time_limit=ctx.n(300, 1500), mem_gb=4.0)
+    if side is None:
+        out.fail("node-real-side", "the real Node class could not be driven through the histories within the time / memory bound", {"n": len(cases)}, observed=why)
+        side = {"dumps": ["?"] * len(cases), "live": {}}
+    for (n, h, kind), m, real in zip(cases, model, side["dumps"]):
         out.count(key=(n, tuple(h)), nontrivial=len(h) >= 2, kind=kind, links=min(len(h), 9))
         if real != m:
             out.fail("node-tables", "routing tables / paths differ between Model/Node.lean and beyond.utils.node",
                      {"n": n, "hist": h}, observed=real, expected=m)
         out.sample({"line": line(n, h), "reply": m[:160]}, limit=3)
     # live built-in objects (tables as they are in the imported package) vs the model
-    live = live_builtin_tables()
     for name, (names, hist) in getattr(ctx, "graphs", {}).items():
         m = core.Driver().run([line(len(names), hist)])[0]
-        r = live.get(name)
-        exp = dump_named(names, r)
+        exp = side["live"].get(name, "?")
         out.count(key="live-" + name, kind="live-" + name)
         if exp != m:
             out.fail("node-live", f"live {name} graph tables differ from the model run on the recorded history", name, observed=exp, expected=m)
@@ -330,7 +387,7 @@ def correspondence_real_registry(ctx, out):
         out.fail("real-registry-tie", "built-in orientation tables were not extracted", {})
         return
     scen = [(nm, ops) for nm, ops in R.fixed_scenarios()] + [R.topo_direct_scenario()]
-    for i in range(ctx.n(10, 120)):
+    for i in range(ctx.n(6, 120)):
         scen.append((f"random{i}", R.random_scenario(ctx.rng, ctx.rng.randint(3, 10))))
     lines, meta = [], []
     for nm, ops in scen:
@@ -407,13 +464,25 @@ def named_cases(ctx, rng, quick_n, thorough_n):
     return cases
 
 
+def _named_real_side(cases):
+    from harness import c20_registry as R
+    out = []
+    for names, h in cases:
+        st, v = guarded(R.real_named_dump, names, h)
+        out.append(v if st == "ok" else f"{st.upper()}:{v}")
+    return out
+
+
 def correspondence_named(ctx, out):
     """Model/Registry.lean (named routing) vs real Node objects several of which carry one name"""
     from harness import c20_registry as R
     cases = named_cases(ctx, ctx.rng, 400, 6000)
     model = core.Driver().run([R.named_line(nm, h) for nm, h, _ in cases])
-    for (names, h, kind), m in zip(cases, model):
-        real = R.real_named_dump(names, h)
+    reals, why = R.forked(_named_real_side, [(nm, h) for nm, h, _ in cases], time_limit=ctx.n(300, 1500), mem_gb=4.0)
+    if reals is None:
+        out.fail("named-real-side", "the real Node class could not be driven through the shared-name histories within the time / memory bound", {"n": len(cases)}, observed=why)
+        return
+    for (names, h, kind), m, real in zip(cases, model, reals):
         out.count(key=("named", tuple(names), tuple(h)), nontrivial=len(h) >= 2 and len(set(names)) < len(names), kind=kind)
         if real != m:
             out.fail("named-node-tables", "routing tables / paths of nodes sharing names differ between Model/Registry.lean and beyond.utils.node",
@@ -484,6 +553,20 @@ def correspondence_registry(ctx, out):
         out.sample({"line": R.reg_line(x), "reply": m[:200]}, limit=6)
 
 
+def _corr_real_side(cases, graphs):
+    """runs in a forked child: one dump per history, each under a CPU bound (the `+` of a changed library may loop or raise)"""
+    dumps = []
+    for n, h in cases:
+        st, v = guarded(lambda: real_dump(n, real_build(n, h)))
+        dumps.append(v if st == "ok" else f"{st.upper()}:{v}")
+    live = {}
+    tabs = live_builtin_tables()
+    for name, (names, hist) in graphs.items():
+        st, v = guarded(lambda: dump_named(names, tabs.get(name)), limit=10.0)
+        live[name] = v if st == "ok" else f"{st.upper()}:{v}"
+    return {"dumps": dumps, "live": live}
+
+
 def live_builtin_tables():
     from beyond.orbits import forms
     from beyond.dates import date
@@ -552,6 +635,10 @@ def has_long_induced_cycle(n, hist):
 
 
 def check_history(out, n, hist, kind):
+    return guarded_check(out, {"n": n, "hist": [list(e) for e in hist]}, _check_history, n, hist, kind)
+
+
+def _check_history(out, n, hist, kind):
     nodes = real_build(n, hist)
     linked = {frozenset(e) for e in hist}
     is_forest = len(linked) == len(hist) and all(True for _ in [0]) and _is_forest(n, hist)
@@ -588,6 +675,10 @@ def _is_forest(n, hist):
 
 
 def check_new_registration(out, rng, n, hist):
+    return guarded_check(out, {"n": n, "hist": [list(e) for e in hist], "then": "a fresh leaf"}, _check_new_registration, rng, n, hist)
+
+
+def _check_new_registration(out, rng, n, hist):
     """adding a leaf under a fresh name leaves every pre-existing path unchanged"""
     nodes = real_build(n, hist)
     before = [[real_path(nodes, s, t, n) for t in range(n)] for s in range(n)]
@@ -739,6 +830,10 @@ def check_nested_and_body_frames(out, rng, rounds):
 
 
 def check_named_history(out, names, hist, kind):
+    return guarded_check(out, {"names": list(names), "hist": [list(e) for e in hist]}, _check_named_history, names, hist, kind)
+
+
+def _check_named_history(out, names, hist, kind):
     """nodes sharing names: from every node, every NAME carried by a connected node is reached along existing links (the
     nearest such node when the links form a forest), every other name is reported unknown; the walk is step-bounded"""
     from harness import c20_registry as R
@@ -781,8 +876,9 @@ def check_registry_scenarios(out, ctx, rng, big):
     beyond.frames.lagrange), each in a forked child under a step / time / memory bound: harness/c20_registry.py"""
     from harness import c20_registry as R
     scen = [(nm, ops, "registry-fixed") for nm, ops in R.fixed_scenarios()]
+    scen.append(R.to_names_scenario() + ("registry-known",))    # open finding C20-link-name-collision: family link-name-collision
     scen.append(R.topo_direct_scenario() + ("registry-regression",))   # fixed finding C20-topocentric-ctor-instance-only: family link-method-unresolvable:topo_direct
-    for i in range(60 if ctx.thorough else (20 if big else 8)):
+    for i in range(60 if ctx.thorough else (20 if big else 6)):
         scen.append((f"random{i}", R.random_scenario(rng, rng.randint(4, 12 if big else 9)), "registry-random"))
     tot = {}
     for nm, ops, kind in scen:
@@ -817,10 +913,20 @@ def _registry_families(seed, rounds_a, rounds_b):
     return {"failures": out.failures, "cases": out.cases, "dist": out.dist, "keys": [repr(k) for k in out.keys]}
 
 
-def oracle(ctx, widened):
+class _MiniCtx:
+    def __init__(self, thorough):
+        self.thorough = thorough
+
+    def n(self, quick, thorough):
+        return thorough if self.thorough else quick
+
+
+def _node_level_oracle(seed, thorough, big):
+    """runs in a forked child (memory / wall-clock bound); every evaluation under its own CPU bound (guarded_check)"""
+    import random
+    rng = random.Random(seed)
+    ctx = _MiniCtx(thorough)
     out = Outcome()
-    rng = ctx.rng
-    big = widened or ctx.thorough
     # forests: exhaustive small, sampled larger
     for n in range(2, (6 if ctx.thorough else 5)):
         for h in forest_histories(n):
@@ -847,12 +953,33 @@ def oracle(ctx, widened):
     for _ in range(3000 if big else 300):
         n = rng.randint(4, 7)
         check_history(out, n, random_graph(rng, n), "cyclic-random")
-    check_pinned(out)
     for _ in range(2000 if big else 300):
         n = rng.randint(2, 12)
         check_new_registration(out, rng, n, random_forest(rng, n))
     for names, h, kind in named_cases(ctx, rng, 3000 if big else 300, 3000):
         check_named_history(out, names, h, kind)
+    check_pinned(out)
+    return {"failures": out.failures, "cases": out.cases, "dist": out.dist, "keys": [repr(k) for k in out.keys]}
+
+
+def _absorb(out, res):
+    out.failures.extend(res["failures"])
+    out.cases += res["cases"]
+    out.keys |= set(res["keys"])
+    for k, v in res["dist"].items():
+        out.dist[k] = out.dist.get(k, 0) + v
+
+
+def oracle(ctx, widened):
+    out = Outcome()
+    rng = ctx.rng
+    big = widened or ctx.thorough
+    from harness import c20_registry as R
+    res, why = R.forked(_node_level_oracle, rng.randrange(2**32), ctx.thorough, big, time_limit=1500.0 if big else 300.0, mem_gb=4.0)
+    if res is None:
+        out.fail("node-level-oracle-exceeds-bound", "the Node-level oracle did not finish within its time / memory bound", {}, observed=why)
+    else:
+        _absorb(out, res)
     check_registry_scenarios(out, ctx, rng, big)
     # the two in-process families on the real registry run in a forked child as well: a changed library may loop in path()
     from harness import c20_registry as R
@@ -860,11 +987,7 @@ def oracle(ctx, widened):
     if res is None:
         out.fail("registry-families-exceed-bound", "conversions interleaved with create_station / as_frame did not finish within the time / memory bound", {}, observed=why)
     else:
-        out.failures.extend(res["failures"])
-        out.cases += res["cases"]
-        out.keys |= set(res["keys"])
-        for k, v in res["dist"].items():
-            out.dist[k] = out.dist.get(k, 0) + v
+        _absorb(out, res)
     out.sample({"history": [(0, 1), (1, 2), (3, 2)], "checked": "all pairs: valid simple chain == BFS distance, unconnected -> ValueError"})
     return out
 
